@@ -217,4 +217,1092 @@ theorem skipNL_nls_cons {k : Nat} {t : Tok} {r : List Tok} (h : t ≠ nl) :
     skipNL (nls k ++ t :: r) = t :: r := by
   rw [skipNL_nls_append]; exact skipNL_of_head (by simpa using h)
 
+theorem forIter_sound {r r2 : List Tok} (h : forIter r = some r2) :
+    (∃ it b, ForIter it b ∧ r = it ++ r2 ∧ (b = false → r2.head? = some kDo)) ∨
+    (r2 = [] ∨ ∃ t r', r2 = t :: r' ∧ stopTok t = true) := by
+  unfold forIter at h
+  split at h
+  · rename_i r'
+    cases h
+    obtain ⟨k, h1, h2⟩ := skipNL_spec r'
+    exact .inl ⟨semi :: nls k, true, .semi, by simp [← h1], by simp⟩
+  · rename_i hns
+    obtain ⟨k, h1, h2⟩ := skipNL_spec r
+    split at h
+    · rename_i r'' heq
+      split at h
+      · rename_i r3 hw
+        cases h
+        obtain ⟨ws, w1, w2, _⟩ := forWords_sound r'' hw
+        obtain ⟨j, j1, j2⟩ := skipNL_spec r3
+        refine .inl ⟨nls k ++ kIn :: ws ++ semi :: nls j, true, .inSemi w1, ?_, by simp⟩
+        rw [h1, heq, w2]; simp [← j1]
+      · rename_i r3 hns2 hw
+        cases h
+        obtain ⟨ws, w1, w2, w3⟩ := forWords_sound r'' hw
+        obtain ⟨j, j1, j2⟩ := skipNL_spec r3
+        cases j with
+        | zero =>
+          right
+          simp only [nls, List.replicate, List.nil_append] at j1
+          rw [← j1]
+          exact w3
+        | succ j =>
+          refine .inl ⟨nls k ++ kIn :: ws ++ nl :: nls j, true, .inNl w1, ?_, by simp⟩
+          rw [h1, heq, w2]
+          conv => lhs; rw [j1]
+          simp [nls_succ]
+      · cases h
+    · rename_i r'' heq
+      cases h
+      exact .inl ⟨nls k, false, .plain, by rw [h1, heq], by simp⟩
+    · cases h
+
+theorem forHead_sound {c : Cfg} {ts : List Tok} {close : Tok} {r2 : List Tok}
+    (h : forHead c ts = some (close, r2)) : ∃ hd, ForHead c hd close ∧ ts = hd ++ r2 := by
+  cases ts with
+  | nil => simp [forHead] at h
+  | cons nm r =>
+    simp only [forHead] at h
+    split at h
+    · rename_i hn
+      simp only [Bool.and_eq_true, Bool.or_eq_true, bne_iff_ne, ne_eq] at hn
+      obtain ⟨hn1, hn2⟩ := hn
+      cases hi : forIter r with
+      | none => simp [hi] at h
+      | some r1 =>
+        simp only [hi, Option.bind] at h
+        have ho : forOpen c r1 = some (close, r2) := h
+        rcases forIter_sound hi with ⟨it, b, hit, hr, hb⟩ | hstop
+        · unfold forOpen at ho
+          split at ho
+          · rename_i r2'
+            split at ho
+            · rename_i hfb
+              cases ho
+              cases b with
+              | true => exact ⟨nm :: it ++ [lbrace], .brace hfb hn1 hn2 hit, by simp [hr]⟩
+              | false => simp at hb
+            · cases ho
+          · cases ho
+            exact ⟨nm :: it ++ [kDo], .doLoop hn1 hn2 hit, by simp [hr]⟩
+          · cases ho
+        · rcases hstop with rfl | ⟨t, r', rfl, ht⟩
+          · simp [forOpen] at ho
+          · cases t <;> simp [forOpen, stopTok, callStop] at ho ht
+    · cases h
+
+theorem forIter_complete {it : List Tok} {b : Bool} (h : ForIter it b) (o : Tok) (rest : List Tok)
+    (ho : o = kDo ∨ (o = lbrace ∧ b = true)) : forIter (it ++ o :: rest) = some (o :: rest) := by
+  have hon : o ≠ nl := by rcases ho with rfl | ⟨rfl, _⟩ <;> decide
+  cases h with
+  | @semi k => simp [forIter, skipNL_nls_cons hon]
+  | @plain k =>
+    rcases ho with rfl | ⟨_, hb⟩
+    · unfold forIter
+      split
+      · rename_i r' heq
+        cases k <;> simp [nls, List.replicate] at heq
+      · simp [skipNL_nls_cons]
+    · cases hb
+  | @inSemi k ws j hw =>
+    unfold forIter
+    split
+    · rename_i r' heq
+      cases k <;> simp [nls, List.replicate] at heq
+    · have : skipNL (nls k ++ kIn :: ws ++ semi :: nls j ++ o :: rest)
+          = kIn :: (ws ++ (semi :: (nls j ++ o :: rest))) := by
+        have := skipNL_nls_cons (k := k) (t := kIn) (r := ws ++ semi :: nls j ++ o :: rest) (by decide)
+        simpa using this
+      rw [this]
+      simp only
+      rw [forWords_complete hw _ (.inr ⟨semi, _, rfl, by decide⟩)]
+      simp [skipNL_nls_cons hon]
+  | @inNl k ws j hw =>
+    unfold forIter
+    split
+    · rename_i r' heq
+      cases k <;> simp [nls, List.replicate] at heq
+    · have : skipNL (nls k ++ kIn :: ws ++ nl :: nls j ++ o :: rest)
+          = kIn :: (ws ++ (nl :: (nls j ++ o :: rest))) := by
+        have := skipNL_nls_cons (k := k) (t := kIn) (r := ws ++ nl :: nls j ++ o :: rest) (by decide)
+        simpa using this
+      rw [this]
+      simp only
+      rw [forWords_complete hw _ (.inr ⟨nl, _, rfl, by decide⟩)]
+      simp [skipNL, skipNL_nls_cons hon]
+
+theorem forHead_complete {c : Cfg} {hd : List Tok} {close : Tok} (h : ForHead c hd close)
+    (rest : List Tok) : forHead c (hd ++ rest) = some (close, rest) := by
+  cases h with
+  | @doLoop nm it b hn1 hn2 hit =>
+    have hn : (isLitWord nm && (nm != assign || c.forAssign)) = true := by
+      rcases hn2 with h | h <;> simp [hn1, h]
+    simp only [List.cons_append, List.append_assoc, forHead, hn, if_true, List.nil_append]
+    rw [forIter_complete hit kDo rest (.inl rfl)]
+    simp [Option.bind, forOpen]
+  | @brace nm it hfb hn1 hn2 hit =>
+    have hn : (isLitWord nm && (nm != assign || c.forAssign)) = true := by
+      rcases hn2 with h | h <;> simp [hn1, h]
+    simp only [List.cons_append, List.append_assoc, forHead, hn, if_true, List.nil_append]
+    rw [forIter_complete hit lbrace rest (.inr ⟨rfl, rfl⟩)]
+    simp [Option.bind, forOpen, hfb]
+
+theorem caseHead_sound {ts r : List Tok} (h : caseHead ts = some r) :
+    ∃ w k j, wordLike w = true ∧ ts = w :: nls k ++ kIn :: nls j ++ r := by
+  cases ts with
+  | nil => simp [caseHead] at h
+  | cons w r0 =>
+    simp only [caseHead] at h
+    split at h
+    · rename_i hw
+      obtain ⟨k, k1, _⟩ := skipNL_spec r0
+      split at h
+      · rename_i r' heq
+        cases h
+        obtain ⟨j, j1, _⟩ := skipNL_spec r'
+        refine ⟨w, k, j, hw, ?_⟩
+        rw [k1, heq]
+        conv => lhs; rw [j1]
+        simp
+      · cases h
+    · cases h
+
+theorem caseHead_complete {w : Tok} (hw : wordLike w = true) (k j : Nat) (rest : List Tok)
+    (hr : rest.head? ≠ some nl) : caseHead (w :: nls k ++ kIn :: nls j ++ rest) = some rest := by
+  have h1 : skipNL (nls k ++ kIn :: (nls j ++ rest)) = kIn :: (nls j ++ rest) :=
+    skipNL_nls_cons (by decide)
+  simp [caseHead, hw, h1, skipNL_nls_append, skipNL_of_head hr]
+
+/-! ### Part 2: soundness -/
+
+theorem allows_io (q : Q) (e : End) : allows q e (some io) = false := by
+  cases e <;> simp [allows, openOK, callStop, notCont]
+
+theorem allows_of_sub {q : Q} {e : End} {t : Tok} (ht : t ≠ rparen)
+    (h : allows .sub e (some t) = true) : allows q e (some t) = true := by
+  cases e <;> simp_all [allows, openOK]
+
+theorem allows_none_of_sub {q : Q} {e : End} (h : allows .sub e none = true) :
+    allows q e none = true := by
+  cases e <;> simp_all [allows, openOK]
+
+theorem allows_closed_of_ne {q : Q} {n : Option Tok} (h : n ≠ some io) : allows q .closed n = true := by
+  simp [allows, h]
+
+theorem list_nls {c : Cfg} {q stops a e ts} (k : Nat) (h : Derives c (.list q stops a) e ts) :
+    Derives c (.list q stops a) e (nls k ++ ts) := by
+  induction k with
+  | zero => simpa [nls] using h
+  | succ k ih => simpa [nls_succ] using Derives.l_nl ih
+
+theorem nonempty_of_derives {c : Cfg} {nt e ts} (h : Derives c nt e ts) :
+    (match nt with | .command _ _ => True | .compound _ => True | _ => False) → ts ≠ [] := by
+  induction h <;> simp_all
+
+theorem command_ne {c : Cfg} {q neg e cm} (h : Derives c (.command q neg) e cm) : cm ≠ [] :=
+  nonempty_of_derives h trivial
+
+theorem redirs_none_of_head {r r' : List Tok} {b : Bool} (h : redirs r = some (b, r'))
+    (hh : r.head? ≠ some io) : r' = r := by
+  obtain ⟨pr, h1, h2, _, _⟩ := redirs_sound r h
+  cases h1 with
+  | nil => simpa using h2.symm
+  | cons _ _ => subst h2; simp at hh
+
+
+/-- How `getStmt` / `andOrTail` leave the input: nothing consumed after the derived string `s`, or
+    (with `readEnd`) the `;` / `&` that follows it. -/
+def Tail (readEnd sm : Bool) (s : List Tok) (e : End) (ts rest : List Tok) : Prop :=
+  (sm = false ∧ ts = s ++ rest ∧ allows .sub e rest.head? = true) ∨
+  (sm = true ∧ readEnd = true ∧ ∃ sep, (sep = semi ∨ sep = amp) ∧ ts = s ++ sep :: rest ∧
+    allows .sub e (some sep) = true)
+
+structure SoundIH (c : Cfg) (f : Nat) : Prop where
+  stmts : ∀ q stops gotEnd any ts a' rest, stops.contains io = false →
+    stmts c q stops f gotEnd any ts = .ok (a', rest) →
+    ∃ pre a e, ts = pre ++ rest ∧ Derives c (.list q stops a) e pre ∧
+      (gotEnd = false → pre = [] ∨ ∃ p', pre = nl :: p' ∧ Derives c (.list q stops a) e p') ∧
+      a' = (any || a) ∧ allows .sub e rest.head? = true
+  follow : ∀ q stops ts rest, stops.contains io = false →
+    followStmts c q stops f ts = .ok rest →
+    ∃ l e, ts = l ++ rest ∧ Derives c (.list q stops true) e l ∧ allows .sub e rest.head? = true
+  getStmt : ∀ q readEnd binCmd ts sm rest, getStmt c q readEnd binCmd f ts = .ok (sm, rest) →
+    ∃ p e0 t e, Derives c (.bpipe q) e0 p ∧ Derives c (.aoTail q e0) e t ∧
+      (binCmd = true → t = [] ∧ e = e0) ∧ Tail readEnd sm (p ++ t) e ts rest ∧
+      (sm = false → rest.head? ≠ some pipe) ∧ (binCmd = false → sm = false → notCont rest.head? = true)
+  andOrTail : ∀ q readEnd binCmd ts sm rest e0, andOrTail c q readEnd binCmd f ts = .ok (sm, rest) →
+    allows .sub e0 ts.head? = true → ts.head? ≠ some pipe →
+    ∃ t e, Derives c (.aoTail q e0) e t ∧ (binCmd = true → t = [] ∧ e = e0) ∧
+      Tail readEnd sm t e ts rest ∧
+      (sm = false → rest.head? ≠ some pipe) ∧ (binCmd = false → sm = false → notCont rest.head? = true)
+  pipeline : ∀ q neg binCmd ts rest, pipeline c q neg binCmd f ts = .ok rest →
+    ∃ cm e0 t e, Derives c (.command q neg) e0 cm ∧ Derives c (.pipeTail q e0) e t ∧
+      (binCmd = true → t = [] ∧ e = e0) ∧ ts = cm ++ t ++ rest ∧ allows .sub e rest.head? = true ∧
+      (binCmd = false → rest.head? ≠ some pipe)
+  pipeTail : ∀ q binCmd ts rest e0, pipeTail c q binCmd f ts = .ok rest →
+    allows .sub e0 ts.head? = true →
+    ∃ t e, Derives c (.pipeTail q e0) e t ∧ (binCmd = true → t = [] ∧ e = e0) ∧ ts = t ++ rest ∧
+      allows .sub e rest.head? = true ∧ (binCmd = false → rest.head? ≠ some pipe)
+  command : ∀ q neg pre ts rest pr, command c q neg pre f ts = .ok rest → Redirs pr →
+    pre = !pr.isEmpty → ts.head? ≠ some io →
+    ∃ cm, ts = cm ++ rest ∧
+      ((∃ e, Derives c (.command q neg) e (pr ++ cm) ∧ allows .sub e rest.head? = true) ∨
+       (pr = [] ∧ Derives c (.compound q) .closed cm))
+  name : ∀ q neg pre t r rest pr, name c q pre f t r = .ok rest →
+    (t = word ∨ (t = bang ∧ neg = true) ∨ ((t = kElse ∨ t = kIn) ∧ c.elseInCmd = true)) →
+    Redirs pr → pre = !pr.isEmpty →
+    ∃ cm e, r = cm ++ rest ∧ Derives c (.command q neg) e (pr ++ t :: cm) ∧
+      allows .sub e rest.head? = true
+  ifTail : ∀ q ts rest e0, ifTail c q f ts = .ok rest → allows .sub e0 ts.head? = true →
+    ∃ t e, Derives c (.ifTail q e0) e t ∧ ts = t ++ rest
+  caseItems : ∀ ts rest, caseItems c f ts = .ok rest →
+    ∃ items e, Derives c .caseItems e items ∧ ts = items ++ rest
+
+theorem sound_zero (c : Cfg) : SoundIH c 0 := by
+  constructor <;> intros <;> simp_all [stmts, followStmts, getStmt, andOrTail, pipeline, pipeTail,
+    command, name, ifTail, caseItems]
+
+theorem bind_ok {α β} {x : R α} {g : α → R β} {b : β} (h : x.bind g = .ok b) :
+    ∃ a, x = .ok a ∧ g a = .ok b := by
+  cases x <;> simp_all [R.bind]
+
+theorem expect_ok {t : Tok} {ts rest : List Tok} (h : expect t ts = .ok rest) : ts = t :: rest := by
+  cases ts with
+  | nil => simp [expect] at h
+  | cons t' r =>
+    simp only [expect] at h
+    split at h
+    · rename_i ht; cases h; rw [ht]
+    · cases h
+
+theorem ofOpt_ok {α} {o : Option α} {a : α} (h : ofOpt o = .ok a) : o = some a := by
+  cases o <;> simp_all [ofOpt]
+
+theorem sound_stmts {c : Cfg} {f : Nat} (ih : SoundIH c f) :
+    ∀ q stops gotEnd any ts a' rest, stops.contains io = false →
+    stmts c q stops (f+1) gotEnd any ts = .ok (a', rest) →
+    ∃ pre a e, ts = pre ++ rest ∧ Derives c (.list q stops a) e pre ∧
+      (gotEnd = false → pre = [] ∨ ∃ p', pre = nl :: p' ∧ Derives c (.list q stops a) e p') ∧
+      a' = (any || a) ∧ allows .sub e rest.head? = true := by
+  intro q stops gotEnd any ts a' rest hst h
+  cases ts with
+  | nil =>
+    simp [stmts] at h
+    obtain ⟨rfl, rfl⟩ := h
+    exact ⟨[], false, .closed, rfl, .l_nil, fun _ => .inl rfl, by simp, rfl⟩
+  | cons t0 r0 =>
+    simp only [stmts] at h
+    obtain ⟨k, hk1, hk2⟩ := skipNL_spec (t0 :: r0)
+    -- the shape of the skipped prefix, as needed for `gotEnd = false`
+    have hpre : ∀ {a e} (body : List Tok), Derives c (.list q stops a) e body →
+        (k ≠ 0 ∨ body = []) → nls k ++ body = [] ∨
+          ∃ p', nls k ++ body = nl :: p' ∧ Derives c (.list q stops a) e p' := by
+      intro a e body hb hk
+      cases k with
+      | zero =>
+        rcases hk with hk | rfl
+        · exact absurd rfl hk
+        · exact .inl rfl
+      | succ k => exact .inr ⟨nls k ++ body, by simp [nls_succ], list_nls k hb⟩
+    have hnew : (t0 == nl) = true → k ≠ 0 := by
+      intro hnl hk0
+      subst hk0
+      simp only [nls, List.replicate, List.nil_append] at hk1
+      rw [← hk1] at hk2
+      simp at hnl hk2
+      exact hk2 hnl
+    have hnil : Derives c (.list q stops false) .closed (nls k) := by
+      simpa using list_nls k (Derives.l_nil (c := c) (q := q) (stops := stops))
+    split at h
+    · rename_i heq
+      cases h
+      rw [heq] at hk1
+      exact ⟨nls k, false, .closed, by simpa using hk1, hnil,
+        fun _ => by simpa using hpre [] .l_nil (.inr rfl), by simp, rfl⟩
+    · rename_i t r heq
+      rw [heq] at hk1
+      have hstop : ∀ {any : Bool}, t ≠ io →
+          ∃ pre a e, t0 :: r0 = pre ++ t :: r ∧ Derives c (.list q stops a) e pre ∧
+          (gotEnd = false → pre = [] ∨ ∃ p', pre = nl :: p' ∧ Derives c (.list q stops a) e p') ∧
+          any = (any || a) ∧ allows .sub e (t :: r).head? = true := by
+        intro any hio
+        exact ⟨nls k, false, .closed, hk1, hnil,
+          fun _ => by simpa using hpre [] .l_nil (.inr rfl), by simp,
+          allows_closed_of_ne (by simpa using hio)⟩
+      split at h
+      · rename_i hs
+        cases h
+        exact hstop (by rintro rfl; simp at hst hs; exact hst hs)
+      · rename_i hns
+        split at h
+        · cases h
+        · split at h
+          · cases h; rename_i hp; exact hstop (by rintro rfl; simp at hp)
+          · split at h
+            · rename_i hd
+              split at h
+              · cases h; exact hstop (by rintro rfl; simp at hd)
+              · cases h
+            · split at h
+              · cases h
+              · rename_i hsep
+                cases hg : getStmt c q true false f (t :: r) with
+                | oof => simp [hg] at h
+                | err => simp [hg] at h
+                | ok x =>
+                  obtain ⟨sm, r'⟩ := x
+                  simp only [hg] at h
+                  obtain ⟨p, e0, t', e1, hp, ht', _, htail, _, _⟩ := ih.getStmt _ _ _ _ _ _ hg
+                  have hstm : Derives c (.stmt q) e1 (p ++ t') := .stmt hp ht'
+                  obtain ⟨pre', a, e, hr', hl, hshape, ha', hal⟩ := ih.stmts _ _ _ _ _ _ _ hst h
+                  have hk0 : gotEnd = false → k ≠ 0 := by
+                    intro hg0
+                    apply hnew
+                    simp only [hg0, Bool.not_false, Bool.and_true, Bool.not_eq_true', Bool.not_eq_false] at hsep
+                    simpa using hsep
+                  have hstart : ∀ tl, t :: r = (p ++ t') ++ tl → startOK stops (p ++ t') := by
+                    intro tl htl
+                    unfold startOK
+                    cases hpt : p ++ t' with
+                    | nil => simp
+                    | cons x xs =>
+                      rw [hpt] at htl
+                      simp only [List.cons_append, List.cons.injEq] at htl
+                      simp only [List.head?]
+                      rw [← htl.1]
+                      simpa using hns
+                  rcases htail with ⟨hsm, hts, hal0⟩ | ⟨hsm, _, sep, hsep', hts, hal0⟩
+                  · -- no separator consumed: the rest of the list is empty or starts with a newline
+                    subst hsm
+                    rcases hshape rfl with hnil' | ⟨p', hp', hl'⟩
+                    · subst hnil'
+                      simp only [List.nil_append] at hr'
+                      subst hr'
+                      refine ⟨nls k ++ (p ++ t'), true, e1, ?_, list_nls k (.l_last hstm (hstart _ hts)),
+                        fun hg0 => hpre _ (.l_last hstm (hstart _ hts)) (.inl (hk0 hg0)), by simp [ha'], hal0⟩
+                      rw [hk1, hts]; simp
+                    · subst hp'
+                      have hnlok : allows q e1 (some nl) = true := by
+                        rw [hr'] at hal0
+                        exact allows_of_sub (by decide) (by simpa using hal0)
+                      have hd := Derives.l_newl hstm (hstart _ hts) hnlok hl'
+                      refine ⟨nls k ++ ((p ++ t') ++ nl :: p'), true, e, ?_, list_nls k hd,
+                        fun hg0 => hpre _ hd (.inl (hk0 hg0)), by simp [ha'], hal⟩
+                      rw [hk1, hts, hr']; simp
+                  · subst hsm
+                    have hsepok : allows q e1 (some sep) = true :=
+                      allows_of_sub (by rcases hsep' with rfl | rfl <;> decide) hal0
+                    have hd := Derives.l_sep hstm (hstart _ hts) hsep' hsepok hl
+                    refine ⟨nls k ++ ((p ++ t') ++ sep :: pre'), true, e, ?_, list_nls k hd,
+                      fun hg0 => hpre _ hd (.inl (hk0 hg0)), by simp [ha'], hal⟩
+                    rw [hk1, hts, hr']; simp
+
+theorem sound_follow {c : Cfg} {f : Nat} (ih : SoundIH c f) :
+    ∀ q stops ts rest, stops.contains io = false →
+    followStmts c q stops (f+1) ts = .ok rest →
+    ∃ l e, ts = l ++ rest ∧ Derives c (.list q stops true) e l ∧ allows .sub e rest.head? = true := by
+  intro q stops ts rest hst h
+  simp only [followStmts] at h
+  split at h
+  · rename_i r heq
+    cases h
+    obtain ⟨pre, a, e, h1, h2, _, h4, h5⟩ := ih.stmts _ _ _ _ _ _ _ hst heq
+    simp at h4
+    subst h4
+    exact ⟨pre, e, h1, h2, h5⟩
+  all_goals cases h
+
+theorem tail_nil_false {readEnd : Bool} {e : End} {ts : List Tok}
+    (h : allows .sub e ts.head? = true) : Tail readEnd false [] e ts ts :=
+  .inl ⟨rfl, rfl, h⟩
+
+theorem sound_andOrTail {c : Cfg} {f : Nat} (ih : SoundIH c f) :
+    ∀ q readEnd binCmd ts sm rest e0, andOrTail c q readEnd binCmd (f+1) ts = .ok (sm, rest) →
+    allows .sub e0 ts.head? = true → ts.head? ≠ some pipe →
+    ∃ t e, Derives c (.aoTail q e0) e t ∧ (binCmd = true → t = [] ∧ e = e0) ∧
+      Tail readEnd sm t e ts rest ∧
+      (sm = false → rest.head? ≠ some pipe) ∧ (binCmd = false → sm = false → notCont rest.head? = true) := by
+  intro q readEnd binCmd ts sm rest e0 h hal hnp
+  -- the result when the loop stops without consuming anything
+  have stay : ∀ (_ : notCont ts.head? = true), (sm, rest) = (false, ts) →
+      ∃ t e, Derives c (.aoTail q e0) e t ∧ (binCmd = true → t = [] ∧ e = e0) ∧
+      Tail readEnd sm t e ts rest ∧
+      (sm = false → rest.head? ≠ some pipe) ∧ (binCmd = false → sm = false → notCont rest.head? = true) := by
+    intro hnc heq
+    cases heq
+    exact ⟨[], e0, .t_nil, fun _ => ⟨rfl, rfl⟩, tail_nil_false hal, fun _ => hnp, fun _ _ => hnc⟩
+  have opcase : ∀ op r, ts = op :: r → (op = andIf ∨ op = orIf) →
+      (if binCmd then R.ok (false, ts) else
+        match getStmt c q false true f (skipNL r) with
+        | .ok (_, r') => andOrTail c q readEnd binCmd f r'
+        | .err => .err
+        | .oof => .oof) = .ok (sm, rest) →
+      ∃ t e, Derives c (.aoTail q e0) e t ∧ (binCmd = true → t = [] ∧ e = e0) ∧
+      Tail readEnd sm t e ts rest ∧
+      (sm = false → rest.head? ≠ some pipe) ∧ (binCmd = false → sm = false → notCont rest.head? = true) := by
+    intro op r hts hop h
+    split at h
+    · rename_i hb
+      cases h
+      exact ⟨[], e0, .t_nil, fun _ => ⟨rfl, rfl⟩, tail_nil_false hal, fun _ => hnp,
+        fun hb' => by simp [hb] at hb'⟩
+    · rename_i hb
+      cases hg : getStmt c q false true f (skipNL r) with
+      | oof => simp [hg] at h
+      | err => simp [hg] at h
+      | ok x =>
+        obtain ⟨sm', r'⟩ := x
+        simp only [hg] at h
+        obtain ⟨p, e1, t1, e1', hp, _, hbin, htail, hnp', _⟩ := ih.getStmt _ _ _ _ _ _ hg
+        obtain ⟨rfl, rfl⟩ := hbin rfl
+        rcases htail with ⟨hsm', hsk, hal1⟩ | ⟨_, hre, _⟩
+        · subst hsm'
+          obtain ⟨t2, e, ht2, _, htail2, hq1, hq2⟩ := ih.andOrTail _ _ _ _ _ _ e1' h hal1 (hnp' rfl)
+          obtain ⟨k, hk1, _⟩ := skipNL_spec r
+          have hopok : allows q e0 (some op) = true := by
+            rw [hts] at hal
+            exact allows_of_sub (by rcases hop with rfl | rfl <;> decide) (by simpa using hal)
+          have hd := Derives.t_op (k := k) hop hopok hp ht2
+          refine ⟨op :: nls k ++ p ++ t2, e, hd, fun hb' => by simp [hb] at hb', ?_, hq1, hq2⟩
+          have hts' : ts = op :: nls k ++ p ++ r' := by
+            rw [hts, hk1, hsk]; simp
+          rcases htail2 with ⟨h1, h2, h3⟩ | ⟨h1, h2, sep, h3, h4, h5⟩
+          · exact .inl ⟨h1, by rw [hts', h2]; simp, h3⟩
+          · exact .inr ⟨h1, h2, sep, h3, by rw [hts', h4]; simp, h5⟩
+        · cases hre
+  cases ts with
+  | nil => simp only [andOrTail] at h; exact stay rfl (by cases h; rfl)
+  | cons t r =>
+    by_cases h1 : t = andIf
+    · subst h1; simp only [andOrTail] at h; exact opcase _ _ rfl (.inl rfl) h
+    by_cases h2 : t = orIf
+    · subst h2; simp only [andOrTail] at h; exact opcase _ _ rfl (.inr rfl) h
+    have sepcase : (t = semi ∨ t = amp) →
+        (if readEnd then R.ok (true, r) else R.ok (false, t :: r)) = .ok (sm, rest) →
+        ∃ t' e, Derives c (.aoTail q e0) e t' ∧ (binCmd = true → t' = [] ∧ e = e0) ∧
+        Tail readEnd sm t' e (t :: r) rest ∧
+        (sm = false → rest.head? ≠ some pipe) ∧ (binCmd = false → sm = false → notCont rest.head? = true) := by
+      intro hsep h
+      split at h
+      · rename_i hre
+        cases h
+        exact ⟨[], e0, .t_nil, fun _ => ⟨rfl, rfl⟩,
+          .inr ⟨rfl, hre, t, hsep, rfl, by simpa using hal⟩, by simp, by simp⟩
+      · cases h
+        exact stay (by rcases hsep with rfl | rfl <;> rfl) rfl
+    by_cases h3 : t = semi
+    · subst h3; simp only [andOrTail] at h; exact sepcase (.inl rfl) h
+    by_cases h4 : t = amp
+    · subst h4; simp only [andOrTail] at h; exact sepcase (.inr rfl) h
+    have : andOrTail c q readEnd binCmd (f+1) (t :: r) = .ok (false, t :: r) := by
+      cases t <;> first | rfl | exact absurd rfl h1 | exact absurd rfl h2 | exact absurd rfl h3 | exact absurd rfl h4
+    rw [this] at h
+    have hnc : notCont (t :: r).head? = true := by
+      cases t <;> first | rfl | exact absurd rfl h1 | exact absurd rfl h2 | exact absurd rfl hnp
+    exact stay hnc (by cases h; rfl)
+
+theorem dropWhile_bang (r : List Tok) :
+    ∃ k, r = bangs k ++ r.dropWhile (· == bang) ∧ (r.dropWhile (· == bang)).head? ≠ some bang := by
+  induction r with
+  | nil => exact ⟨0, rfl, by simp⟩
+  | cons t r ih =>
+    by_cases h : t = bang
+    · subst h
+      obtain ⟨k, h1, h2⟩ := ih
+      refine ⟨k+1, ?_, ?_⟩
+      · simp only [List.dropWhile, beq_self_eq_true, bangs, List.replicate, List.cons_append]
+        congr 1
+      · simpa [List.dropWhile] using h2
+    · have hb : (t == bang) = false := by simpa using h
+      refine ⟨0, ?_, ?_⟩
+      · simp [List.dropWhile, hb, bangs]
+      · simp [List.dropWhile, hb, h]
+
+theorem head_append_of_ne {a b : List Tok} (h : a ≠ []) : (a ++ b).head? = a.head? := by
+  cases a with
+  | nil => exact absurd rfl h
+  | cons x xs => rfl
+
+theorem sound_getStmt {c : Cfg} {f : Nat} (ih : SoundIH c f) :
+    ∀ q readEnd binCmd ts sm rest, getStmt c q readEnd binCmd (f+1) ts = .ok (sm, rest) →
+    ∃ p e0 t e, Derives c (.bpipe q) e0 p ∧ Derives c (.aoTail q e0) e t ∧
+      (binCmd = true → t = [] ∧ e = e0) ∧ Tail readEnd sm (p ++ t) e ts rest ∧
+      (sm = false → rest.head? ≠ some pipe) ∧ (binCmd = false → sm = false → notCont rest.head? = true) := by
+  intro q readEnd binCmd ts sm rest h
+  -- common continuation: a pipeline, then the and-or loop
+  have fin : ∀ (pfx : List Tok) (neg : Bool) (r1 : List Tok),
+      (∀ {e p}, Derives c (.pipeline q neg) e p → p.head? = r1.head? → Derives c (.bpipe q) e (pfx ++ p)) →
+      ts = pfx ++ r1 →
+      (pipeline c q neg false f r1).bind (andOrTail c q readEnd binCmd f) = .ok (sm, rest) →
+      ∃ p e0 t e, Derives c (.bpipe q) e0 p ∧ Derives c (.aoTail q e0) e t ∧
+        (binCmd = true → t = [] ∧ e = e0) ∧ Tail readEnd sm (p ++ t) e ts rest ∧
+        (sm = false → rest.head? ≠ some pipe) ∧ (binCmd = false → sm = false → notCont rest.head? = true) := by
+    intro pfx neg r1 bp hts hb
+    obtain ⟨r2, hp, ha⟩ := bind_ok hb
+    obtain ⟨cm, e0', t1, e1, hcm, ht1, _, hr1, hal1, hnp1⟩ := ih.pipeline _ _ _ _ _ hp
+    obtain ⟨t2, e, ht2, hbin, htail, hq1, hq2⟩ := ih.andOrTail _ _ _ _ _ _ e1 ha hal1 (hnp1 rfl)
+    have hne : cm ++ t1 ≠ [] := by
+      intro hh; exact command_ne hcm (List.append_eq_nil_iff.mp hh).1
+    have hhead : (cm ++ t1).head? = r1.head? := by
+      rw [hr1, List.append_assoc, ← List.append_assoc, head_append_of_ne hne]
+    have hd := bp (Derives.pipeline hcm ht1) hhead
+    refine ⟨pfx ++ (cm ++ t1), e1, t2, e, hd, ht2, hbin, ?_, hq1, hq2⟩
+    rcases htail with ⟨h1, h2, h3⟩ | ⟨h1, h2, sep, h3, h4, h5⟩
+    · exact .inl ⟨h1, by rw [hts, hr1, h2]; simp, h3⟩
+    · exact .inr ⟨h1, h2, sep, h3, by rw [hts, hr1, h4]; simp, h5⟩
+  by_cases hb : ∃ r, ts = bang :: r
+  · obtain ⟨r, rfl⟩ := hb
+    simp only [getStmt] at h
+    split at h
+    · rename_i hba
+      obtain ⟨k, hk1, hk2⟩ := dropWhile_bang r
+      generalize hr' : r.dropWhile (· == bang) = r' at h hk1 hk2
+      have hbare : Derives c (.bpipe q) .bare (bang :: bangs k) := .b_bare hba
+      have bareres : ∀ (_ : allows .sub .bare r'.head? = true) (_ : r'.head? ≠ some pipe)
+          (_ : notCont r'.head? = true), (sm, rest) = (false, r') →
+          ∃ p e0 t e, Derives c (.bpipe q) e0 p ∧ Derives c (.aoTail q e0) e t ∧
+          (binCmd = true → t = [] ∧ e = e0) ∧ Tail readEnd sm (p ++ t) e (bang :: r) rest ∧
+          (sm = false → rest.head? ≠ some pipe) ∧ (binCmd = false → sm = false → notCont rest.head? = true) := by
+        intro h1 h2 h3 heq
+        cases heq
+        exact ⟨bang :: bangs k, .bare, [], .bare, hbare, .t_nil, fun _ => ⟨rfl, rfl⟩,
+          .inl ⟨rfl, by rw [hk1]; simp, h1⟩, fun _ => h2, fun _ _ => h3⟩
+      cases r' with
+      | nil => simp only at h; exact bareres rfl (by simp) rfl (by cases h; rfl)
+      | cons t r'' =>
+        by_cases h1 : t = nl
+        · subst h1; simp only at h; exact bareres rfl (by simp) rfl (by cases h; rfl)
+        by_cases h2 : t = semi
+        · subst h2
+          simp only at h
+          split at h
+          · rename_i hre
+            cases h
+            exact ⟨bang :: bangs k, .bare, [], .bare, hbare, .t_nil, fun _ => ⟨rfl, rfl⟩,
+              .inr ⟨rfl, hre, semi, .inl rfl, by rw [hk1]; simp, rfl⟩, by simp, by simp⟩
+          · exact bareres rfl (by simp) rfl (by cases h; rfl)
+        have h' : (if stopTok t then R.err else
+            (pipeline c q true false f (t :: r'')).bind (andOrTail c q readEnd binCmd f)) = .ok (sm, rest) := by
+          cases t <;> first | exact h | exact absurd rfl h1 | exact absurd rfl h2
+        split at h'
+        · cases h'
+        · refine fin (bang :: bangs k) true (t :: r'') ?_ (by rw [hk1]; simp) h'
+          intro e p hp hhead
+          show Derives c (.bpipe q) e (bang :: bangs k ++ p)
+          exact .b_bangs hba hp (by rw [hhead]; exact hk2)
+    · rename_i hba
+      cases r with
+      | nil => cases h
+      | cons t r'' =>
+        simp only at h
+        split at h
+        · cases h
+        · rename_i hst
+          refine fin [bang] true (t :: r'') ?_ rfl h
+          intro e p hp hhead
+          show Derives c (.bpipe q) e (bang :: p)
+          have hnb : p.head? ≠ some bang := by
+            rw [hhead]
+            simp only [Bool.or_eq_true, beq_iff_eq, not_or] at hst
+            simpa using hst.2
+          exact .b_bang (by simpa using hba) hp hnb
+  · have h' : (pipeline c q false false f ts).bind (andOrTail c q readEnd binCmd f) = .ok (sm, rest) := by
+      cases ts with
+      | nil => exact h
+      | cons t r =>
+        cases t <;> first | exact h | exact absurd ⟨_, rfl⟩ hb
+    exact fin [] false ts (fun hp _ => .b_plain hp) rfl h'
+
+theorem sound_pipeTail {c : Cfg} {f : Nat} (ih : SoundIH c f) :
+    ∀ q binCmd ts rest e0, pipeTail c q binCmd (f+1) ts = .ok rest →
+    allows .sub e0 ts.head? = true →
+    ∃ t e, Derives c (.pipeTail q e0) e t ∧ (binCmd = true → t = [] ∧ e = e0) ∧ ts = t ++ rest ∧
+      allows .sub e rest.head? = true ∧ (binCmd = false → rest.head? ≠ some pipe) := by
+  intro q binCmd ts rest e0 h hal
+  by_cases hp : ∃ r, ts = pipe :: r
+  · obtain ⟨r, rfl⟩ := hp
+    simp only [pipeTail] at h
+    split at h
+    · rename_i hb
+      cases h
+      exact ⟨[], e0, .p_nil, fun _ => ⟨rfl, rfl⟩, rfl, hal, fun hb' => by simp [hb] at hb'⟩
+    · rename_i hb
+      obtain ⟨r2, hp2, ht2⟩ := bind_ok h
+      obtain ⟨cm, e1, t1, e1', hcm, _, hbin, hr, hal1, _⟩ := ih.pipeline _ _ _ _ _ hp2
+      obtain ⟨rfl, rfl⟩ := hbin rfl
+      obtain ⟨t2, e, hd2, _, hr2, hal2, hnp2⟩ := ih.pipeTail _ _ _ _ e1' ht2 hal1
+      obtain ⟨k, hk1, _⟩ := skipNL_spec r
+      have hok : allows q e0 (some pipe) = true := allows_of_sub (by decide) (by simpa using hal)
+      refine ⟨pipe :: nls k ++ cm ++ t2, e, .p_pipe hok hcm hd2, fun hb' => by simp [hb] at hb', ?_, hal2, hnp2⟩
+      rw [hk1, hr, hr2]; simp
+  · have : pipeTail c q binCmd (f+1) ts = .ok ts := by
+      cases ts with
+      | nil => rfl
+      | cons t r => cases t <;> first | rfl | exact absurd ⟨_, rfl⟩ hp
+    rw [this] at h
+    cases h
+    refine ⟨[], e0, .p_nil, fun _ => ⟨rfl, rfl⟩, rfl, hal, fun _ hh => hp ?_⟩
+    cases ts with
+    | nil => simp at hh
+    | cons t r => simp at hh; exact ⟨r, by rw [hh]⟩
+
+theorem sound_pipeline {c : Cfg} {f : Nat} (ih : SoundIH c f) :
+    ∀ q neg binCmd ts rest, pipeline c q neg binCmd (f+1) ts = .ok rest →
+    ∃ cm e0 t e, Derives c (.command q neg) e0 cm ∧ Derives c (.pipeTail q e0) e t ∧
+      (binCmd = true → t = [] ∧ e = e0) ∧ ts = cm ++ t ++ rest ∧ allows .sub e rest.head? = true ∧
+      (binCmd = false → rest.head? ≠ some pipe) := by
+  intro q neg binCmd ts rest h
+  simp only [pipeline] at h
+  split at h
+  · cases h
+  · rename_i pre ts1 hre
+    obtain ⟨pr, hpr, hts, hpre, hio⟩ := redirs_sound ts hre
+    obtain ⟨r', hc, ht⟩ := bind_ok h
+    obtain ⟨r, hcmd, hpost⟩ := bind_ok hc
+    split at hpost
+    · cases hpost
+    · rename_i b' r'' hre2
+      cases hpost
+      obtain ⟨cm, hcm, hcase⟩ := ih.command _ _ _ _ _ pr hcmd hpr hpre hio
+      -- the command with its redirections, and what follows it
+      have key : ∃ full e0, Derives c (.command q neg) e0 full ∧ ts = full ++ r' ∧
+          allows .sub e0 r'.head? = true := by
+        rcases hcase with ⟨e0, hd, hal⟩ | ⟨hpr0, hd⟩
+        · have hne : r.head? ≠ some io := by
+            intro hh; rw [hh, allows_io] at hal; cases hal
+          have := redirs_none_of_head hre2 hne
+          subst this
+          exact ⟨pr ++ cm, e0, hd, by rw [hts, hcm]; simp, hal⟩
+        · subst hpr0
+          obtain ⟨post, hpost, hr, _, hio2⟩ := redirs_sound r hre2
+          exact ⟨cm ++ post, .closed, .c_compound hd hpost, by rw [hts, hcm, hr]; simp,
+            allows_closed_of_ne hio2⟩
+      obtain ⟨full, e0, hd, hfull, hal⟩ := key
+      obtain ⟨t, e, hdt, hbin, hr', hal', hnp⟩ := ih.pipeTail _ _ _ _ e0 ht hal
+      exact ⟨full, e0, t, e, hd, hdt, hbin, by rw [hfull, hr']; simp, hal', hnp⟩
+
+theorem seal_allows {e : End} {n : Option Tok} (h : allows .sub e n = true) (hn : notCont n = true) :
+    allows .sub e.seal n = true := by
+  cases e <;> simp_all [End.seal, allows]
+
+theorem simple_sound {c : Cfg} {q : Q} {neg : Bool} {pr : List Tok} {t : Tok} {r rest : List Tok}
+    (hpr : Redirs pr) (hf : firstOK c neg (!pr.isEmpty) t = true) (h : callExpr q r = some rest) :
+    ∃ cm e, r = cm ++ rest ∧ Derives c (.command q neg) e (pr ++ t :: cm) ∧
+      allows .sub e rest.head? = true := by
+  obtain ⟨its, hi, hr, ho⟩ := callExpr_sound q r h
+  refine ⟨its, .open, hr, .c_simple hpr hf hi, ?_⟩
+  cases hrest : rest.head? with
+  | none => rfl
+  | some x =>
+    rw [hrest] at ho
+    simp only [openOK, Bool.or_eq_true, Bool.and_eq_true, beq_iff_eq] at ho
+    simp only [allows, openOK, Bool.or_eq_true, Bool.and_eq_true, beq_iff_eq]
+    rcases ho with ho | ⟨ho, _⟩
+    · exact .inl ho
+    · exact .inr ⟨ho, trivial⟩
+
+theorem sound_name {c : Cfg} {f : Nat} (ih : SoundIH c f) :
+    ∀ q neg pre t r rest pr, name c q pre (f+1) t r = .ok rest →
+    (t = word ∨ (t = bang ∧ neg = true) ∨ ((t = kElse ∨ t = kIn) ∧ c.elseInCmd = true)) →
+    Redirs pr → pre = !pr.isEmpty →
+    ∃ cm e, r = cm ++ rest ∧ Derives c (.command q neg) e (pr ++ t :: cm) ∧
+      allows .sub e rest.head? = true := by
+  intro q neg pre t r rest pr h ht hpr hpre
+  have hfirst : firstOK c neg (!pr.isEmpty) t = true := by
+    rcases ht with rfl | ⟨rfl, hn⟩ | ⟨rfl | rfl, he⟩ <;> simp [firstOK, *]
+  by_cases hl : ∃ r1, r = lparen :: r1
+  · obtain ⟨r1, rfl⟩ := hl
+    by_cases hr : ∃ r2, r1 = rparen :: r2
+    · obtain ⟨r2, rfl⟩ := hr
+      simp only [name] at h
+      split at h
+      · cases h
+      · rename_i hpb
+        split at h
+        · cases h
+        · rename_i hnpre
+          have hpr0 : pr = [] := by
+            cases pr with
+            | nil => rfl
+            | cons x xs => simp [hpre] at hnpre
+          subst hpr0
+          have hfn : fnNameOK c neg t = true := by
+            rcases ht with rfl | ⟨rfl, hn⟩ | ⟨rfl | rfl, he⟩ <;> simp_all [fnNameOK]
+          obtain ⟨k, hk1, _⟩ := skipNL_spec r2
+          generalize skipNL r2 = r3 at h hk1
+          split at h
+          · rename_i hfb
+            obtain ⟨x, hg, hx⟩ := bind_ok h
+            cases hx
+            obtain ⟨sm, rst⟩ := x
+            obtain ⟨p, e0, t', e, hp, ht', _, htail, _, hnc⟩ := ih.getStmt _ _ _ _ _ _ hg
+            rcases htail with ⟨hsm, hr3, hal⟩ | ⟨_, hre, _⟩
+            · subst hsm
+              refine ⟨lparen :: rparen :: nls k ++ (p ++ t'), e.seal, by rw [hk1, hr3]; simp,
+                ?_, seal_allows hal (hnc rfl rfl)⟩
+              exact .f_andor hfb hfn (.stmt hp ht')
+            · cases hre
+          · rename_i hfb
+            obtain ⟨cm, e0, t', e, hcm, _, hbin, hr3, hal, _⟩ := ih.pipeline _ _ _ _ _ h
+            obtain ⟨rfl, rfl⟩ := hbin rfl
+            exact ⟨lparen :: rparen :: nls k ++ cm, e, by rw [hk1, hr3]; simp,
+              .f_command hfb hfn hcm, hal⟩
+          · rename_i hfb
+            split at h
+            · rename_i t3 r4
+              split at h
+              · rename_i hcs
+                obtain ⟨cm, e0, t', e, hcm, _, hbin, hr3, hal, _⟩ := ih.pipeline _ _ _ _ _ h
+                obtain ⟨rfl, rfl⟩ := hbin rfl
+                have hsc : startsCompound cm = true := by
+                  cases cm with
+                  | nil => exact absurd rfl (command_ne hcm)
+                  | cons x xs =>
+                    simp only [List.append_nil, List.cons_append, List.cons.injEq] at hr3
+                    simp only [startsCompound]
+                    rw [← hr3.1]; exact hcs
+                exact ⟨lparen :: rparen :: nls k ++ cm, e, by rw [hk1, hr3]; simp,
+                  .f_compound hfb hfn hcm hsc, hal⟩
+              · cases h
+            · cases h
+    · have : name c q pre (f+1) t (lparen :: r1) = .err := by
+        cases r1 with
+        | nil => rfl
+        | cons x xs => cases x <;> first | rfl | exact absurd ⟨_, rfl⟩ hr
+      rw [this] at h; cases h
+  · have : name c q pre (f+1) t r = ofOpt (callExpr q r) := by
+      cases r with
+      | nil => rfl
+      | cons x xs => cases x <;> first | rfl | exact absurd ⟨_, rfl⟩ hl
+    rw [this] at h
+    exact simple_sound hpr hfirst (ofOpt_ok h)
+
+theorem sound_follow_expect {c : Cfg} {f : Nat} (ih : SoundIH c f) {q : Q} {stops : List Tok}
+    {x : Tok} {r rest : List Tok} (hst : stops.contains io = false)
+    (h : (followStmts c q stops f r).bind (expect x) = .ok rest) :
+    ∃ l e, r = l ++ x :: rest ∧ Derives c (.list q stops true) e l ∧
+      allows .sub e (some x) = true := by
+  obtain ⟨r1, h1, h2⟩ := bind_ok h
+  obtain ⟨l, e, hl, hd, hal⟩ := ih.follow _ _ _ _ hst h1
+  have := expect_ok h2
+  subst this
+  exact ⟨l, e, hl, hd, by simpa using hal⟩
+
+theorem sound_ifTail {c : Cfg} {f : Nat} (ih : SoundIH c f) :
+    ∀ q ts rest e0, ifTail c q (f+1) ts = .ok rest → allows .sub e0 ts.head? = true →
+    ∃ t e, Derives c (.ifTail q e0) e t ∧ ts = t ++ rest := by
+  intro q ts rest e0 h hal
+  cases ts with
+  | nil => simp [ifTail] at h
+  | cons t r =>
+    by_cases h1 : t = kElif
+    · subst h1
+      simp only [ifTail] at h
+      obtain ⟨r1, ha, hb⟩ := bind_ok h
+      obtain ⟨cond, e1, hr, hd1, hal1⟩ := sound_follow_expect ih (by decide) ha
+      obtain ⟨r2, hc, hd⟩ := bind_ok hb
+      obtain ⟨thn, e2, hr1, hd2, hal2⟩ := ih.follow _ _ _ _ (by decide) hc
+      obtain ⟨t', e, hd3, hr2⟩ := ih.ifTail _ _ _ e2 hd hal2
+      refine ⟨kElif :: cond ++ kThen :: thn ++ t', .closed, ?_, by rw [hr, hr1, hr2]; simp⟩
+      exact .i_elif (allows_of_sub (by decide) (by simpa using hal)) hd1
+        (allows_of_sub (by decide) hal1) hd2 hd3
+    by_cases h2 : t = kElse
+    · subst h2
+      simp only [ifTail] at h
+      obtain ⟨l, e, hr, hd1, hal1⟩ := sound_follow_expect ih (by decide) h
+      exact ⟨kElse :: l ++ [kFi], .closed,
+        .i_else (allows_of_sub (by decide) (by simpa using hal)) hd1 (allows_of_sub (by decide) hal1),
+        by rw [hr]; simp⟩
+    by_cases h3 : t = kFi
+    · subst h3
+      simp only [ifTail] at h
+      cases h
+      exact ⟨[kFi], .closed, .i_fi (allows_of_sub (by decide) (by simpa using hal)), rfl⟩
+    · have : ifTail c q (f+1) (t :: r) = .err := by
+        cases t <;> first | rfl | exact absurd rfl h1 | exact absurd rfl h2 | exact absurd rfl h3
+      rw [this] at h; cases h
+
+theorem sound_caseItems {c : Cfg} {f : Nat} (ih : SoundIH c f) :
+    ∀ ts rest, caseItems c (f+1) ts = .ok rest →
+    ∃ items e, Derives c .caseItems e items ∧ ts = items ++ rest := by
+  intro ts rest h
+  cases ts with
+  | nil => simp [caseItems] at h
+  | cons t r =>
+    by_cases h1 : t = kEsac
+    · subst h1
+      simp only [caseItems] at h
+      cases h
+      exact ⟨[kEsac], .closed, .ci_esac, rfl⟩
+    · have hunf : caseItems c (f+1) (t :: r) =
+          (match patterns (if t = lparen then r else t :: r) with
+          | none => R.err
+          | some r1 =>
+            match stmts c .case [kEsac] f true false r1 with
+            | .ok (_, dsemi :: r2) => caseItems c f (skipNL r2)
+            | .ok (_, r2) => expect kEsac r2
+            | .err => .err
+            | .oof => .oof) := by
+        cases t <;> first | rfl | exact absurd rfl h1
+      rw [hunf] at h
+      -- the optional `(` and the patterns
+      have hps : ∀ r1, patterns (if t = lparen then r else t :: r) = some r1 →
+          ∃ lp pat, (lp = [] ∨ lp = [lparen]) ∧ Pats pat ∧ (lp = [] → pat.head? ≠ some kEsac) ∧
+            t :: r = lp ++ pat ++ r1 := by
+        intro r1 hp
+        obtain ⟨pat, hpat, hpr⟩ := patterns_sound _ hp
+        by_cases hl : t = lparen
+        · subst hl
+          simp only [if_true] at hpr
+          exact ⟨[lparen], pat, .inr rfl, hpat, (fun h => by cases h), by rw [hpr]; simp⟩
+        · simp only [hl, if_false] at hpr
+          refine ⟨[], pat, .inl rfl, hpat, fun _ => ?_, by rw [hpr]; simp⟩
+          cases hpat with
+          | one hw => simp at hpr; rw [← hpr.1]; simpa using h1
+          | more hw _ => simp at hpr; rw [← hpr.1]; simpa using h1
+      split at h
+      · cases h
+      · rename_i r1 hp
+        obtain ⟨lp, pat, hlp, hpat, hes, htr⟩ := hps r1 hp
+        cases hs : stmts c .case [kEsac] f true false r1 with
+        | oof => simp [hs] at h
+        | err => simp [hs] at h
+        | ok x =>
+          obtain ⟨a', r2⟩ := x
+          obtain ⟨l, a, e, hr1, hd, _, _, hal⟩ := ih.stmts _ _ _ _ _ _ _ (by decide) hs
+          by_cases hds : ∃ r3, r2 = dsemi :: r3
+          · obtain ⟨r3, rfl⟩ := hds
+            simp only [hs] at h
+            obtain ⟨items, e', hd', hr3⟩ := ih.caseItems _ _ h
+            obtain ⟨k, hk1, _⟩ := skipNL_spec r3
+            refine ⟨lp ++ pat ++ l ++ dsemi :: nls k ++ items, .closed, ?_, ?_⟩
+            · exact .ci_item hlp hpat hes hd (allows_of_sub (by decide) (by simpa using hal)) hd'
+            · rw [htr, hr1, hk1, hr3]; simp
+          · have h' : expect kEsac r2 = .ok rest := by
+              rw [hs] at h
+              cases r2 with
+              | nil => exact h
+              | cons x xs => cases x <;> first | exact h | exact absurd ⟨_, rfl⟩ hds
+            have := expect_ok h'
+            subst this
+            refine ⟨lp ++ pat ++ l ++ [kEsac], .closed, ?_, by rw [htr, hr1]; simp⟩
+            exact .ci_last hlp hpat hes hd (allows_of_sub (by decide) (by simpa using hal))
+
+theorem forHead_close {c : Cfg} {hd : List Tok} {close : Tok} (h : ForHead c hd close) :
+    close = kDone ∨ close = rbrace := by
+  cases h <;> simp
+
+theorem redirs_ne_nil_form {pr : List Tok} (h : Redirs pr) (hne : (!pr.isEmpty) = true) :
+    ∃ w r, pr = io :: w :: r ∧ wordLike w = true ∧ Redirs r := by
+  cases h with
+  | nil => simp at hne
+  | @cons w r hw hr => exact ⟨w, r, rfl, hw, hr⟩
+
+theorem sound_command {c : Cfg} {f : Nat} (ih : SoundIH c f) :
+    ∀ q neg pre ts rest pr, command c q neg pre (f+1) ts = .ok rest → Redirs pr →
+    pre = !pr.isEmpty → ts.head? ≠ some io →
+    ∃ cm, ts = cm ++ rest ∧
+      ((∃ e, Derives c (.command q neg) e (pr ++ cm) ∧ allows .sub e rest.head? = true) ∨
+       (pr = [] ∧ Derives c (.compound q) .closed cm)) := by
+  intro q neg pre ts rest pr h hpr hpre hio
+  have hpr0 : pre = false → pr = [] := by
+    intro hp
+    cases pr with
+    | nil => rfl
+    | cons x xs => simp [hpre] at hp
+  -- only redirections
+  have redirOnly : pre = true → rest = ts → (∀ t r, ts = t :: r → stopTok t = true) →
+      ∃ cm, ts = cm ++ rest ∧
+      ((∃ e, Derives c (.command q neg) e (pr ++ cm) ∧ allows .sub e rest.head? = true) ∨
+       (pr = [] ∧ Derives c (.compound q) .closed cm)) := by
+    intro hp hrest hstop
+    subst hrest
+    obtain ⟨w, r, rfl, hw, hr⟩ := redirs_ne_nil_form hpr (by rw [← hpre]; exact hp)
+    refine ⟨[], rfl, .inl ⟨.open, by simpa using Derives.c_redir hw hr, ?_⟩⟩
+    cases rest with
+    | nil => rfl
+    | cons t r' =>
+      have := hstop t r' rfl
+      cases t <;> simp_all [allows, openOK, stopTok, callStop]
+  -- a simple command
+  have simple : ∀ t r, ts = t :: r → firstOK c neg (!pr.isEmpty) t = true →
+      callExpr q r = some rest →
+      ∃ cm, ts = cm ++ rest ∧
+      ((∃ e, Derives c (.command q neg) e (pr ++ cm) ∧ allows .sub e rest.head? = true) ∨
+       (pr = [] ∧ Derives c (.compound q) .closed cm)) := by
+    intro t r hts hf hc
+    obtain ⟨cm, e, hr, hd, hal⟩ := simple_sound (neg := neg) hpr hf hc
+    exact ⟨t :: cm, by rw [hts, hr]; simp, .inl ⟨e, hd, hal⟩⟩
+  have named : ∀ t r, ts = t :: r →
+      (t = word ∨ (t = bang ∧ neg = true) ∨ ((t = kElse ∨ t = kIn) ∧ c.elseInCmd = true)) →
+      name c q pre f t r = .ok rest →
+      ∃ cm, ts = cm ++ rest ∧
+      ((∃ e, Derives c (.command q neg) e (pr ++ cm) ∧ allows .sub e rest.head? = true) ∨
+       (pr = [] ∧ Derives c (.compound q) .closed cm)) := by
+    intro t r hts ht hn
+    obtain ⟨cm, e, hr, hd, hal⟩ := ih.name _ neg _ _ _ _ pr hn ht hpr hpre
+    exact ⟨t :: cm, by rw [hts, hr]; simp, .inl ⟨e, hd, hal⟩⟩
+  have comp : ∀ cm, pre = false → ts = cm ++ rest → Derives c (.compound q) .closed cm →
+      ∃ cm, ts = cm ++ rest ∧
+      ((∃ e, Derives c (.command q neg) e (pr ++ cm) ∧ allows .sub e rest.head? = true) ∨
+       (pr = [] ∧ Derives c (.compound q) .closed cm)) :=
+    fun cm hp hts hd => ⟨cm, hts, .inr ⟨hpr0 hp, hd⟩⟩
+  cases ts with
+  | nil =>
+    simp only [command] at h
+    split at h
+    · rename_i hp; cases h; exact redirOnly hp rfl (fun _ _ h => by cases h)
+    · cases h
+  | cons t r =>
+    simp only [command] at h
+    split at h
+    · -- the shells: any literal word after a redirection is the command name
+      rename_i hcond
+      simp only [Bool.and_eq_true, Bool.not_eq_true', bne_iff_ne, ne_eq] at hcond
+      obtain ⟨⟨⟨hp, hrs⟩, hlw⟩, hna⟩ := hcond
+      have hf : firstOK c neg (!pr.isEmpty) t = true := by
+        rw [← hpre, hp]
+        by_cases hw : t = word
+        · simp [firstOK, hw]
+        · have : isRsrv t = true := by simp [isRsrv, hlw, hw, hna]
+          simp [firstOK, hrs, this]
+      by_cases hl : ∃ r1, r = lparen :: r1
+      · obtain ⟨r1, rfl⟩ := hl; cases h
+      · have h' : ofOpt (callExpr q r) = .ok rest := by
+          cases r with
+          | nil => exact h
+          | cons x xs => cases x <;> first | exact h | exact absurd ⟨_, rfl⟩ hl
+        exact simple t r rfl hf (ofOpt_ok h')
+    · cases t
+      case word => exact named _ _ rfl (.inl rfl) h
+      case assign => exact simple _ _ rfl (by simp [firstOK]) (ofOpt_ok h)
+      case qword =>
+        by_cases hl : ∃ r1, r = lparen :: r1
+        · obtain ⟨r1, rfl⟩ := hl; cases h
+        · have h' : ofOpt (callExpr q r) = .ok rest := by
+            cases r with
+            | nil => exact h
+            | cons x xs => cases x <;> first | exact h | exact absurd ⟨_, rfl⟩ hl
+          exact simple _ _ rfl (by simp [firstOK]) (ofOpt_ok h')
+      case bang =>
+        simp only at h
+        split at h
+        · rename_i hn; exact named _ _ rfl (.inr (.inl ⟨rfl, hn⟩)) h
+        · cases h
+      case kElse =>
+        simp only at h
+        split at h
+        · rename_i hn; exact named _ _ rfl (.inr (.inr ⟨.inl rfl, hn⟩)) h
+        · cases h
+      case kIn =>
+        simp only at h
+        split at h
+        · rename_i hn; exact named _ _ rfl (.inr (.inr ⟨.inr rfl, hn⟩)) h
+        · cases h
+      case lbrace =>
+        simp only at h
+        split at h
+        · cases h
+        · rename_i hp
+          obtain ⟨l, e, hr, hd, hal⟩ := sound_follow_expect ih (by decide) h
+          exact comp (lbrace :: l ++ [rbrace]) (by simpa using hp) (by rw [hr]; simp)
+            (.block hd (allows_of_sub (by decide) hal))
+      case lparen =>
+        simp only at h
+        split at h
+        · cases h
+        · rename_i hp
+          obtain ⟨l, e, hr, hd, hal⟩ := sound_follow_expect ih (by decide) h
+          exact comp (lparen :: l ++ [rparen]) (by simpa using hp) (by rw [hr]; simp)
+            (.subshell hd hal)
+      case kIf =>
+        simp only at h
+        split at h
+        · cases h
+        · rename_i hp
+          obtain ⟨r1, ha, hb⟩ := bind_ok h
+          obtain ⟨cond, e1, hr, hd1, hal1⟩ := sound_follow_expect ih (by decide) ha
+          obtain ⟨r2, hc, hd⟩ := bind_ok hb
+          obtain ⟨thn, e2, hr1, hd2, hal2⟩ := ih.follow _ _ _ _ (by decide) hc
+          obtain ⟨t', e, hd3, hr2⟩ := ih.ifTail _ _ _ e2 hd hal2
+          exact comp (kIf :: cond ++ kThen :: thn ++ t') (by simpa using hp)
+            (by rw [hr, hr1, hr2]; simp) (.ifc hd1 (allows_of_sub (by decide) hal1) hd2 hd3)
+      case kWhile =>
+        simp only at h
+        split at h
+        · cases h
+        · rename_i hp
+          obtain ⟨r1, ha, hb⟩ := bind_ok h
+          obtain ⟨cond, e1, hr, hd1, hal1⟩ := sound_follow_expect ih (by decide) ha
+          obtain ⟨body, e2, hr1, hd2, hal2⟩ := sound_follow_expect ih (by decide) hb
+          exact comp (kWhile :: cond ++ kDo :: body ++ [kDone]) (by simpa using hp)
+            (by rw [hr, hr1]; simp)
+            (.loop (.inl rfl) hd1 (allows_of_sub (by decide) hal1) hd2 (allows_of_sub (by decide) hal2))
+      case kUntil =>
+        simp only at h
+        split at h
+        · cases h
+        · rename_i hp
+          obtain ⟨r1, ha, hb⟩ := bind_ok h
+          obtain ⟨cond, e1, hr, hd1, hal1⟩ := sound_follow_expect ih (by decide) ha
+          obtain ⟨body, e2, hr1, hd2, hal2⟩ := sound_follow_expect ih (by decide) hb
+          exact comp (kUntil :: cond ++ kDo :: body ++ [kDone]) (by simpa using hp)
+            (by rw [hr, hr1]; simp)
+            (.loop (.inr rfl) hd1 (allows_of_sub (by decide) hal1) hd2 (allows_of_sub (by decide) hal2))
+      case kFor =>
+        simp only at h
+        split at h
+        · cases h
+        · rename_i hp
+          split at h
+          · rename_i close r1 hfh
+            obtain ⟨hd, hfd, hr⟩ := forHead_sound hfh
+            have hcl := forHead_close hfd
+            have hst : [close].contains io = false := by rcases hcl with rfl | rfl <;> decide
+            obtain ⟨body, e, hr1, hd1, hal1⟩ := sound_follow_expect ih hst h
+            exact comp (kFor :: hd ++ body ++ [close]) (by simpa using hp)
+              (by rw [hr, hr1]; simp)
+              (.forc hfd hd1 (allows_of_sub (by rcases hcl with rfl | rfl <;> decide) hal1))
+          · cases h
+      case kCase =>
+        simp only at h
+        split at h
+        · cases h
+        · rename_i hp
+          split at h
+          · rename_i r1 hch
+            obtain ⟨w, k, j, hw, hr⟩ := caseHead_sound hch
+            obtain ⟨items, e, hd, hr1⟩ := ih.caseItems _ _ h
+            exact comp (kCase :: w :: nls k ++ kIn :: nls j ++ items) (by simpa using hp)
+              (by rw [hr, hr1]; simp) (.casec hw hd)
+          · cases h
+      case io => exact absurd rfl hio
+      all_goals first
+        | cases h
+        | (simp only at h
+           split at h
+           · rename_i hp; cases h; exact redirOnly hp rfl (fun _ _ hh => by cases hh; rfl)
+           · cases h)
+
+theorem sound_all (c : Cfg) : ∀ f, SoundIH c f
+  | 0 => sound_zero c
+  | f+1 =>
+    have ih := sound_all c f
+    { stmts := sound_stmts ih, follow := sound_follow ih, getStmt := sound_getStmt ih,
+      andOrTail := sound_andOrTail ih, pipeline := sound_pipeline ih, pipeTail := sound_pipeTail ih,
+      command := sound_command ih, name := sound_name ih, ifTail := sound_ifTail ih,
+      caseItems := sound_caseItems ih }
+
+theorem parseWith_sound {c : Cfg} {fuel : Nat} {ts : List Tok} (h : parseWith c fuel ts = true) :
+    Derives c .program .closed ts := by
+  unfold parseWith at h
+  split at h
+  · rename_i a heq
+    obtain ⟨pre, a', e, h1, h2, _, _, _⟩ := (sound_all c fuel).stmts _ _ _ _ _ _ _ (by decide) heq
+    simp at h1
+    subst h1
+    exact .program h2
+  · cases h
+
 end ShVerif.C12
